@@ -18,13 +18,13 @@ from vlib.rtc import eng, gen, fn
 
 _col = gen._col
 REJECT = "REJECT"
-DEFAULTS = {"a": "", "b": 0}
+DEFAULTS = {"a": "", "b": 0, "e": None}
 
 # ------------------------------------------------------------------------------------------------
 # reference implementation (from the docstring of BulkAddOrUpdateRecord and the statement)
 # ------------------------------------------------------------------------------------------------
 
-def reference(rows, require, col_values, options, sequential=False):
+def reference(rows, require, col_values, options, sequential=False, cols=("a", "b")):
   """rows: [{'id', 'a', 'b'}] ascending ids; require / col_values: {col: [values]}.
   -> REJECT | (new rows, recordIds, addRecordIds, updateRecordIds)
   `sequential` = each input row sees the effects of the previous ones (the docstring does not say
@@ -50,7 +50,7 @@ def reference(rows, require, col_values, options, sequential=False):
     matches = [r["id"] for r in pool if r["id"] > 0 and all(r[k] == req[k] for k in req)]
     if sequential: matches = [m for m in matches]
     if not matches and add:
-      rec = dict(DEFAULTS); rec.update(req); rec.update(vals)
+      rec = {k: DEFAULTS[k] for k in cols}; rec.update(req); rec.update(vals)
       to_add.append((i, rec))
       if sequential:
         rec["id"] = next_id; next_id += 1
@@ -76,12 +76,12 @@ def reference(rows, require, col_values, options, sequential=False):
   return (state, record_ids, added, updated)
 
 
-def reference_single(rows, require, col_values, options):
+def reference_single(rows, require, col_values, options, cols=("a", "b")):
   """AddOrUpdateRecord: -> REJECT | 'NOOP_OR_REJECT' | (rows, {'recordIds', 'action'})"""
   if not require and not col_values:
     return "NOOP"                       # nothing to look up and nothing to write
   r = reference(rows, {k: [v] for k, v in require.items()},
-                {k: [v] for k, v in col_values.items()}, options)
+                {k: [v] for k, v in col_values.items()}, options, cols=cols)
   if r == REJECT: return REJECT
   state, record_ids, added, updated = r
   action = "UPDATE" if updated else ("ADD" if added else "NONE")
@@ -134,7 +134,21 @@ BULK = [   # (require, col_values)
 ]
 
 
+# `e` is an EMPTY column (freshly added: isFormula with a blank formula): it accepts values
+EMPTY_REQUIRE = [{"e": "v"}, {"a": "x", "e": "v"}, {"a": "z", "e": "v"}, {"a": "x"}]
+EMPTY_VALUES = [{}, {"b": 2}, {"e": "w"}]
+EMPTY_BULK = [({"e": ["v", "u"]}, {"b": [2, 3]}), ({"a": ["x", "z"], "e": ["v", "v"]}, {})]
+
+
 def _cases(tier, seed):
+  for t in _tables(tier):
+    if len(t) <= 2:
+      for req in EMPTY_REQUIRE:
+        for vals in EMPTY_VALUES:
+          if "e" in req or "e" in vals:
+            yield dict(table=t, kind="single", require=req, values=vals, empty_col=True)
+      for req, vals in EMPTY_BULK:
+        yield dict(table=t, kind="bulk", require=req, values=vals, empty_col=True)
   for t in _tables(tier):
     for req in SINGLE_REQUIRE:
       for vals in SINGLE_VALUES:
@@ -147,9 +161,11 @@ def _cases(tier, seed):
 # the call: all option combinations on one real engine, restoring the table in between
 # ------------------------------------------------------------------------------------------------
 
-def _new(table):
+def _new(table, empty_col=False):
   e = eng.new_engine()
   eng.apply(e, [["AddTable", "T", [_col("a", "Text"), _col("b", "Int")]]])
+  if empty_col:
+    eng.apply(e, [["AddColumn", "T", "e", {}]])
   if table:
     eng.apply(e, [["BulkAddRecord", "T", [None] * len(table),
                    {"a": [c[0] for c in table], "b": [c[1] for c in table]}]])
@@ -158,10 +174,15 @@ def _new(table):
 
 def _rows(e):
   td = e.fetch_table("T")
-  return [{"id": r, "a": td.columns["a"][i], "b": td.columns["b"][i]} for i, r in enumerate(td.row_ids)]
+  cols = [c for c in ("a", "b", "e") if c in td.columns]
+  return [dict([("id", r)] + [(c, td.columns[c][i]) for c in cols]) for i, r in enumerate(td.row_ids)]
 
 
-def _restore(e, table):
+def _restore(e, table, empty_col=False):
+  if empty_col and not e.schema["T"].columns["e"].isFormula:
+    # a write turned the empty column into a data column: make it an empty column again
+    eng.apply(e, [["RemoveColumn", "T", "e"]])
+    eng.apply(e, [["AddColumn", "T", "e", {}]])
   cur = list(e.tables["T"].row_ids)
   if cur: eng.apply(e, [["BulkRemoveRecord", "T", cur]])
   if table:
@@ -173,14 +194,15 @@ def _restore(e, table):
 
 def _one(e, a, opts, pre):
   """-> list of (clause, detail) for one option combination."""
+  cols = ("a", "b", "e") if a.get("empty_col") else ("a", "b")
   if a["kind"] == "single":
     action = ["AddOrUpdateRecord", "T", a["require"], a["values"], opts]
-    exp = reference_single(pre, a["require"], a["values"], opts)
+    exp = reference_single(pre, a["require"], a["values"], opts, cols=cols)
     exp_seq = exp
   else:
     action = ["BulkAddOrUpdateRecord", "T", a["require"], a["values"], opts]
-    exp = reference(pre, a["require"], a["values"], opts)
-    exp_seq = reference(pre, a["require"], a["values"], opts, sequential=True)
+    exp = reference(pre, a["require"], a["values"], opts, cols=cols)
+    exp_seq = reference(pre, a["require"], a["values"], opts, sequential=True, cols=cols)
   try:
     g = eng.apply(e, [action]); exc = None
   except Exception as ex:
@@ -218,7 +240,7 @@ def _one(e, a, opts, pre):
 
 
 def _call(a):
-  e = _new(a["table"])
+  e = _new(a["table"], a.get("empty_col"))
   pre0 = _rows(e)
   fails, kinds = [], {}
   for opts in _options():
@@ -229,12 +251,12 @@ def _call(a):
     kinds[kind] = kinds.get(kind, 0) + 1
     if f:
       # confirm on a fresh engine (no state carried over from earlier option combinations)
-      e2 = _new(a["table"])
+      e2 = _new(a["table"], a.get("empty_col"))
       f2, _ = _one(e2, a, opts, _rows(e2))
       for clause, d in f:
         d["reproduces_on_fresh_engine"] = bool(f2)
         fails.append((clause, d))
-    _restore(e, a["table"])
+    _restore(e, a["table"], a.get("empty_col"))
   return dict(fails=fails, kinds=kinds)
 
 
@@ -261,7 +283,8 @@ def main():
     "bounded, exhaustive: table T(a Text, b Int) with 0..3 rows over cells %r (thorough: plus "
     "('y', 2)); AddOrUpdateRecord with %d require x %d col_values dictionaries; "
     "BulkAddOrUpdateRecord with %d (require, col_values) pairs incl. duplicates and mismatched "
-    "lengths; each under all %d option combinations (on_many absent/first/none/all/bad x update x add x "
+    "lengths; plus, on tables <= 2 rows with an additional EMPTY column e (freshly added, blank "
+    "formula), require / col_values naming e; each under all %d option combinations (on_many absent/first/none/all/bad x update x add x "
     "allow_empty_require); not a proof" % (CELLS, len(SINGLE_REQUIRE), len(SINGLE_VALUES), len(BULK), n_opts),
     "the option combinations of one (table, arguments) case run on one engine with the table "
     "restored in between (remove all rows, re-add with explicit ids); a failure is re-run on a "
